@@ -216,6 +216,22 @@ func hostileSkipCases(c *Ctx, n int, seedBase int64) []json.RawMessage {
 			}
 		}
 	}
+	// declared sizes that exceed what is present by exactly T, for every "round" T a chunked or capped implementation
+	// might use: strings and bulk-skipped lists of fixed-size elements, alone and as a struct field
+	for _, present := range []int{0, 5, 100, 5000} {
+		for _, T := range []int{1, 4095, 4096, 4097, 8192, 65535, 65536, 99999, 100000, 999999, 1000000, 1000001, 1048575, 1048576, 1048577, 2000000, 16777216} {
+			body := PatBytes(present%200, 0, present)
+			d := uint32(present + T)
+			str := append([]byte{byte(d >> 24), byte(d >> 16), byte(d >> 8), byte(d)}, body...)
+			add(SkipCase{T: 11, Hex: hexOf(&SegBuf{b: str}), Note: "short-by-T string"})
+			add(SkipCase{T: 12, Hex: hexOf(&SegBuf{b: append([]byte{11, 0, 1}, str...)}), Note: "short-by-T field"})
+			cnt := uint32((present+T)/8 + 1)
+			lst := append([]byte{10, byte(cnt >> 24), byte(cnt >> 16), byte(cnt >> 8), byte(cnt)}, body...)
+			add(SkipCase{T: 15, Hex: hexOf(&SegBuf{b: lst}), Note: "short-by-T list"})
+			mp := append([]byte{8, 10, byte(cnt >> 24), byte(cnt >> 16), byte(cnt >> 8), byte(cnt)}, body...)
+			add(SkipCase{T: 13, Hex: hexOf(&SegBuf{b: mp}), Note: "short-by-T map"})
+		}
+	}
 	// struct with one field of every type, every cut point
 	for _, ft := range allTypes {
 		s := &SegBuf{}
